@@ -33,10 +33,13 @@
 //!                anchors is spent by a broadcast (or its confirmed second-stage child is); re-issued claims never
 //!                lower their fee; after burial SpendableOutputs appear, their value + fees = value claimed, and
 //!                get_claimable_balances drains.
+//!   c06scope   — pending splice: the per-FundingScope HTLC data and the punishment of a commitment signed while the splice was pending (c06/splice.rs)
 #[path = "c06/bump.rs"]
 mod bump;
 #[path = "c06/pkgtrace.rs"]
 mod pkgtrace;
+#[path = "c06/splice.rs"]
+mod splice;
 use bitcoin::{OutPoint, Transaction, TxOut, Txid};
 use ldk_verif_harness::common::*;
 use ldk_verif_harness::sim::{silence_stdout, Net};
@@ -779,6 +782,8 @@ fn main() {
 			}
 			rec.notes.insert("rule".into(), "one scenario = one real 2-node channel with a PRNG-drawn payment history (dust / near-dust / non-dust, both directions, claims and failures), the cheater's commitment captured at a random old state, a random subset of its HTLC transactions, then 0-3 reorgs (fork point above everything / below the victim's confirmed justice tx / below the second-stage txs / below the commitment; other branch with or without the cheater's and the victim's transactions), every ConnectStyle in turn, reloads, mempool eviction before the final drain; distinct = distinct `confirm` / `conn` / `disc` op lines".into());
 		},
+		// per-FundingScope commitment data while a splice is pending, revoked commitment signed during the pending splice (see c06/splice.rs)
+		"c06scope" => { if std::env::var("C06_LOG").is_err() { silence_stdout(); } splice::run(&mut rec, &mut rng, args.thorough, args.scale) },
 		m => { eprintln!("unknown model {}", m); std::process::exit(2); },
 	}
 	rec.finish();
